@@ -14,11 +14,6 @@ const c18Rule = "case = built / loaded / merged segment x list of 0..12 (field, 
 	"deleted-away term, 1-hit term} in drawn order (field switches inside the list); oracle = union over the model; no error, no panic; non-trivial = >=2 pairs from >=2 different fields " +
 	"with >=1 match; distinct = hash of case text + list"
 
-type ftTerm struct{ f, t string }
-
-func (x ftTerm) Field() string { return x.f }
-func (x ftTerm) Term() []byte  { return []byte(x.t) }
-
 func TestC18(t *testing.T) {
 	st := NewStats("C18", c18Rule)
 	defer st.Flush()
